@@ -62,19 +62,20 @@ def Valid (inp : Path) (is : List Nat) (out : Path) (tol slack : Rat) : Bool :=
 
 /-- Decide `∃ is, Valid inp is out tol` without being given positions (vertices may repeat, so the
 positions are not determined by the values).  `cur` = positions at which an embedding of the part
-of `out` consumed so far can end; `seg a k` scans forward from `a` collecting every position where
-the next output vertex occurs, stopping behind the first vertex that is too far from the segment. -/
+of `out` consumed so far can end; `scanFrom` scans forward from `a + 1` collecting every position
+where the next output vertex occurs, stopping behind the first vertex that is too far from the
+segment.  (Soundness: `Proofs.C13_judge_embeds_sound`.) -/
+def scanFrom (inp : Path) (tol slack : Rat) (pa pb : P) : Nat → Nat → List Nat → List Nat
+  | 0, _, acc => acc
+  | fuel + 1, k, acc =>
+    match inp[k]? with
+    | none => acc
+    | some p =>
+      let acc := if p = pb ∧ ¬ acc.contains k then k :: acc else acc
+      if within tol slack p pa pb then scanFrom inp tol slack pa pb fuel (k + 1) acc else acc
+
 def nextPositions (inp : Path) (tol slack : Rat) (pa pb : P) (cur : List Nat) : List Nat :=
-  let rec go (fuel k : Nat) (acc : List Nat) : List Nat :=
-    match fuel with
-    | 0 => acc
-    | fuel + 1 =>
-      match inp[k]? with
-      | none => acc
-      | some p =>
-        let acc := if p = pb ∧ ¬ acc.contains k then k :: acc else acc
-        if within tol slack p pa pb then go fuel (k + 1) acc else acc
-  cur.foldl (fun acc a => go inp.length (a + 1) acc) []
+  cur.foldl (fun acc a => scanFrom inp tol slack pa pb inp.length (a + 1) acc) []
 
 def embedsFrom (inp : Path) (tol slack : Rat) : P → Path → List Nat → Bool
   | _, [], cur => cur.contains (inp.length - 1)
